@@ -315,6 +315,7 @@ class Blocks(object):
 
     def split(self, inactive):
         self.updateBlockPositions()
+        self.nsplit = 0
         for b in self._list:
             v = b.findMinLM()
             if not v is None and v.lm < Solver.LAGRANGIAN_TOLERANCE:
@@ -324,6 +325,7 @@ class Blocks(object):
                     self.insert(nb)
                 self.remove(b)
                 inactive.append(v)
+                self.nsplit += 1
 
 
 class Solver(object):
@@ -422,7 +424,19 @@ class Solver(object):
         self.satisfy()
         lastcost = maxsize
         cost = self.bs.cost()
-        while abs(lastcost - cost) > 0.0001:
+        # A pass that splits a block and merges the halves back across another
+        # constraint can leave the cost unchanged although the next pass lowers
+        # it, so a stationary cost only ends the iteration once a pass has
+        # split nothing. At most one such extra pass per constraint is
+        # allowed, so the loop always ends.
+        stalled = 0
+        while abs(lastcost - cost) > 0.0001 or (
+            self.bs.nsplit and stalled < len(self.cs)
+        ):
+            if abs(lastcost - cost) > 0.0001:
+                stalled = 0
+            else:
+                stalled += 1
             self.satisfy()
             lastcost = cost
             cost = self.bs.cost()
